@@ -415,14 +415,15 @@ Definition expand (env : aenv) (ch : chain) : option chain :=
   end.
 
 (* the user procedure a reference invokes, if any: a declared procedure (whatever its name), or a
-   name declared nowhere that is not an intrinsic (an external procedure) *)
+   name declared nowhere that is not an intrinsic (an external procedure: the project's own top-level
+   procedure of that name if there is one) *)
 Definition classify (tb : symtab) (env : aenv) (ch : chain) : list str :=
   match expand env ch with
   | None => []
   | Some ch' =>
     match denote tb (st_scope tb) ch' with
     | DProc id => [id]
-    | DUnknown => if str_in (last_of ch') INTRINSICS then [] else [last_of ch']
+    | DUnknown => if str_in (last_of ch') INTRINSICS then [] else [unresolved_name tb ch']
     | DVar => []
     | DType => []
     end
@@ -474,7 +475,7 @@ Definition is_proc_den (d : den) : bool := match d with DProc _ => true | _ => f
 Definition classify0 (tb : symtab) (ch : chain) : list str :=
   match denote tb (st_scope tb) ch with
   | DProc id => [id]
-  | DUnknown => if str_in (last_of ch) INTRINSICS then [] else [last_of ch]
+  | DUnknown => if str_in (last_of ch) INTRINSICS then [] else [unresolved_name tb ch]
   | DVar => []
   | DType => []
   end.
@@ -488,7 +489,7 @@ Definition region_intrinsic_named (tb : symtab) (ss : list stmt) : bool :=
    7: any other difference in what a reference denotes (name resolution, property C07) *)
 Definition ford_class (tb : symtab) (ch : chain) : list str :=
   match find_chain tb (st_scope tb) ch with
-  | None => if str_in (last_of ch) INTRINSICS then [] else [last_of ch]
+  | None => if str_in (last_of ch) INTRINSICS then [] else [unresolved_name tb ch]
   | Some (EVar _ _) => []
   | Some (EType _) => []
   | Some (EFunc id _) => if str_in (last_of ch) INTRINSICS then [] else [id]
